@@ -270,6 +270,37 @@ class Schema:
                                            for w in t["wheres"])
         return L
 
+    # ---------------------------------------------------------------- which entities a select type can hold
+    def select_members(self, n):
+        b = self.resolve(n)["body"]
+        return b[1] if b[0] == "select" else None
+
+    def can_be(self, n, mode, seen=()):
+        """entities (lower case) the select named n can hold.  mode 'td': an entity member or any of its subtypes, through member
+        selects of any nesting depth (the reflexive-transitive closure of select membership); 'name': member entities only;
+        'set': member entities reached without passing through a RENAMED select (ISO 10303-21: its name must be written)"""
+        out = set()
+        if n in seen:
+            return out
+        for m in self.select_members(n) or []:
+            if m[0] == "E":
+                out.add(m[1].lower())
+                if mode == "td":
+                    out |= {x["name"].lower() for x in self.entities if m[1] in self.inherit_order(x["name"])}
+            elif m[0] == "N" and self.select_members(m[1]) is not None:
+                if mode == "set" and self.T(m[1])["body"][0] != "select":
+                    continue
+                out |= self.can_be(m[1], mode, seen + (n,))
+        return out
+
+    def canbe_lines(self):
+        L = []
+        for t in sorted(self.types, key=lambda t: t["name"].lower()):
+            if self.select_members(t["name"]) is not None:
+                L.append(f"CANBE {t['name'].lower()} " + " ".join(
+                    f"{k}=" + ",".join(sorted(self.can_be(t["name"], k))) for k in ("td", "name", "set")))
+        return L
+
     # what the getters that follow referent links must answer for a type expression
     def g_root(self, tr):
         """(fundamental type name, rendered descriptor) of the first non-reference descriptor"""
@@ -517,6 +548,30 @@ class Gen:
                     s.tags.add("renamed_enum")
                 if kind_name == "select":
                     s.tags.add("renamed_select")
+        # ---- selects nested in each other, 1 .. 4 deep, an entity member at every level (and now and then a renamed select
+        #      between two levels): what the outermost can hold is the closure of select membership
+        nest_types = []
+        if K.get("select_nesting", True) and len(enames) >= 2 and r.random() < 0.6:
+            depth = min(r.choice([1, 2, 2, 3, 3, 4]), len(enames))
+            pool_e = list(enames)
+            r.shuffle(pool_e)
+            prev = None
+            for k in range(depth):
+                n = self.ident(kw if r.random() < 0.2 else None)
+                ms = [("E", pool_e[k])]
+                if prev:
+                    ms.append(("N", prev))
+                    r.shuffle(ms)
+                if k == 0 and len(pool_e) > depth and r.random() < 0.5:
+                    ms.append(("E", pool_e[depth]))
+                s.types.append(dict(name=n, body=("select", ms))); selects.append(n); nest_types.append(n)
+                prev = n
+                if k + 1 < depth and r.random() < 0.3:
+                    rn = self.ident()
+                    s.types.append(dict(name=rn, body=("alias", ("N", prev)))); selects.append(rn); nest_types.append(rn)
+                    prev = rn
+                    s.tags.add("renamed_select")
+            s.tags.add(f"select_nesting_{depth}")
         r.shuffle(s.types)
         # ---- entities: a DAG (supertypes among earlier entities), then shuffled textually
         def attr_type():
@@ -570,17 +625,27 @@ class Gen:
                         cands.append((m, a))
             done = set()
             for m, a in cands:
-                if a["name"] in done or r.random() > 0.3:
+                if a["name"] in done or r.random() > 0.4:
                     continue
                 done.add(a["name"])
+                # the supertype a redeclaration names: the declaring entity, or an intermediate supertype that itself
+                # redeclares the attribute explicitly (SELF\b.x with b SUBTYPE OF (a), b: SELF\a.x) — chains of any length
+                inter = [m2 for m2 in self._anc(s, sup) if any(x["name"] == a["name"] and x["redecl"] and x["kind"] == "E"
+                                                               for x in s.Ent(m2)["attrs"])]
+                q = m
+                if inter and K.get("redecl_chains", True) and r.random() < 0.6:
+                    q = r.choice(inter)
+                    s.tags.add("redeclaration-names-intermediate-supertype")
                 if r.random() < 0.5 and a["type"][1] in ("INTEGER", "REAL", "NUMBER"):
-                    e["attrs"].append(dict(name=a["name"], redecl=m, kind="D", opt=False, type=a["type"], init="1", inv=None))
+                    e["attrs"].append(dict(name=a["name"], redecl=q, kind="D", opt=False, type=a["type"], init="1", inv=None))
                 else:
-                    e["attrs"].append(dict(name=a["name"], redecl=m, kind="E", opt=False, type=a["type"], inv=None))
+                    e["attrs"].append(dict(name=a["name"], redecl=q, kind="E", opt=False, type=a["type"], inv=None))
                 s.tags.add("redeclared")
             s.entities.append(e)
         # an attribute of the deepest type of every rename chain, on an entity that stays instantiable (the last one has no
         # subtypes): its value goes through the generated mutator/accessor and through STEPattribute
+        for tn in nest_types[-1:] + (nest_types[:1] if len(nest_types) > 2 else []):
+            s.entities[-1]["attrs"].append(dict(name=self.ident(), redecl=None, kind="E", opt=r.random() < 0.3, type=("N", tn), inv=None))
         for tn in deep_types:
             s.entities[-1]["attrs"].append(dict(name=self.ident(), redecl=None, kind="E", opt=r.random() < 0.3, type=("N", tn), inv=None))
         # inverse attributes: entity X gets `inv : SET OF Y FOR attr` where Y.attr : X
